@@ -58,6 +58,10 @@ type nctx struct {
 	refExpr string
 	dispatch bool // receiver is *nodeRef: parameters tag / nd
 	retSlot bool  // findChild: returns *nodeRef
+	// minimum()/maximum() of tree.go: one step of the walk – `ref` is a nodeRef VALUE, `kind := ref.tag` its tag,
+	// and `ref = e` ends the step with the reference the walk continues with
+	stepRef  types.Object
+	stepKind types.Object
 }
 
 func (c *nctx) fail(pos token.Pos, format string, args ...any) {
@@ -633,6 +637,14 @@ func (c *nctx) stmts(list []ast.Stmt, k func() string) string {
 		v := c.declare(obj, sort)
 		return fmt.Sprintf("let %s : %s := %s\n", v.lean, c.leanType(sort), zero) + next()
 	case *ast.AssignStmt:
+		if c.stepRef != nil && s.Tok == token.ASSIGN && len(s.Lhs) == 1 && len(s.Rhs) == 1 {
+			if id, ok := unparen(s.Lhs[0]).(*ast.Ident); ok && c.w.info.Uses[id] == c.stepRef {
+				if len(rest) != 0 {
+					c.fail(s.Pos(), "statements after `%s = …` in a walk step", id.Name)
+				}
+				return "pure " + c.rhs(s.Rhs[0], "ref") + "\n"
+			}
+		}
 		return c.assign(s) + next()
 	case *ast.IncDecStmt:
 		op := "+"
@@ -1036,12 +1048,16 @@ func (c *nctx) switchStmt(s *ast.SwitchStmt, next func() string) string {
 	if s.Init != nil || s.Tag == nil {
 		c.fail(s.Pos(), "unsupported switch")
 	}
-	sel, ok := unparen(s.Tag).(*ast.SelectorExpr)
-	if !ok || sel.Sel.Name != "tag" || !c.dispatch {
-		c.fail(s.Pos(), "unsupported switch tag")
-	}
-	if rid, ok := unparen(sel.X).(*ast.Ident); !ok || c.w.info.Uses[rid] != c.refObj {
-		c.fail(s.Pos(), "unsupported switch tag")
+	if kid, ok := unparen(s.Tag).(*ast.Ident); ok && c.stepKind != nil && c.w.info.Uses[kid] == c.stepKind {
+		// `kind := ref.tag` of the enclosing walk
+	} else {
+		sel, ok := unparen(s.Tag).(*ast.SelectorExpr)
+		if !ok || sel.Sel.Name != "tag" || !c.dispatch {
+			c.fail(s.Pos(), "unsupported switch tag")
+		}
+		if rid, ok := unparen(sel.X).(*ast.Ident); !ok || c.w.info.Uses[rid] != c.refObj {
+			c.fail(s.Pos(), "unsupported switch tag")
+		}
 	}
 	var b strings.Builder
 	b.WriteString("match tag with\n")
@@ -1347,6 +1363,63 @@ func (w *world) genNodeMethod(recv, name string) string {
 	return b.String()
 }
 
+// genWalkStep: `minimum` / `maximum` of tree.go are `for ref.pointer != nil { kind := ref.tag; if kind == nodeKindLeaf
+// { return ref.pointer }; switch kind { … ref = <child> … } }`.  The switch – one step of the walk on an inner node –
+// becomes `<name>_step (tag) (nd) : Option (Option C)`: the reference the walk continues with (`none` inside the
+// Option monad = the Go code would index out of range; the leaf test and the nil test of the loop head are what
+// `RT.minimum/maximum` do with the result).
+func (w *world) genWalkStep(name string) string {
+	fd := w.findFunc(name, "")
+	c := &nctx{w: w, fname: name + "_step", env: map[types.Object]*nvar{}, used: map[string]int{}, viewOf: map[*nvar]*nvar{}}
+	if len(fd.Type.Params.List) != 1 || len(fd.Type.Params.List[0].Names) != 1 {
+		w.failAt(fd.Pos(), "node.go translator: %s: expected one parameter", name)
+	}
+	c.stepRef = w.info.Defs[fd.Type.Params.List[0].Names[0]]
+	c.refObj, c.dispatch = c.stepRef, true
+	if !w.isNamed(c.stepRef.Type(), "nodeRef") {
+		w.failAt(fd.Pos(), "node.go translator: %s: the parameter is not a nodeRef", name)
+	}
+	if len(fd.Body.List) != 2 {
+		w.failAt(fd.Pos(), "node.go translator: %s: expected `for ref.pointer != nil { … }; return nil`", name)
+	}
+	loop, ok := fd.Body.List[0].(*ast.ForStmt)
+	if !ok || loop.Init != nil || loop.Post != nil || loop.Cond == nil || w.text(loop.Cond) != c.stepRef.Name()+".pointer != nil" {
+		w.failAt(fd.Pos(), "node.go translator: %s: expected `for %s.pointer != nil`", name, c.stepRef.Name())
+	}
+	if rs, ok := fd.Body.List[1].(*ast.ReturnStmt); !ok || len(rs.Results) != 1 || w.text(rs.Results[0]) != "nil" {
+		w.failAt(fd.Pos(), "node.go translator: %s: expected a final `return nil`", name)
+	}
+	body := loop.Body.List
+	if len(body) != 3 {
+		w.failAt(loop.Pos(), "node.go translator: %s: expected `kind := ref.tag; if kind == nodeKindLeaf { return ref.pointer }; switch kind { … }`", name)
+	}
+	as, ok := body[0].(*ast.AssignStmt)
+	if !ok || as.Tok != token.DEFINE || len(as.Lhs) != 1 || w.text(as.Rhs[0]) != c.stepRef.Name()+".tag" {
+		w.failAt(body[0].Pos(), "node.go translator: %s: expected `kind := %s.tag`", name, c.stepRef.Name())
+	}
+	c.stepKind = w.info.Defs[as.Lhs[0].(*ast.Ident)]
+	ifs, ok := body[1].(*ast.IfStmt)
+	if !ok || ifs.Else != nil || ifs.Init != nil || w.text(ifs.Cond) != c.stepKind.Name()+" == nodeKindLeaf" || len(ifs.Body.List) != 1 ||
+		w.text(ifs.Body.List[0]) != "return "+c.stepRef.Name()+".pointer" {
+		w.failAt(body[1].Pos(), "node.go translator: %s: expected `if kind == nodeKindLeaf { return ref.pointer }`", name)
+	}
+	sw, ok := body[2].(*ast.SwitchStmt)
+	if !ok {
+		w.failAt(body[2].Pos(), "node.go translator: %s: expected a switch on the kind", name)
+	}
+	c.used["tag"], c.used["nd"], c.used["E"], c.used["fuel"], c.used["loopFuel"] = 1, 1, 1, 1, 1
+	code := c.switchStmt(sw, func() string {
+		c.fail(sw.End(), "a case of the walk step that does not assign the reference")
+		return ""
+	})
+	var b strings.Builder
+	for _, l := range c.loops {
+		b.WriteString(l + "\n")
+	}
+	fmt.Fprintf(&b, "def %s (E : Env C) (tag : Nat) (nd : Img C) : Option (Option C) := do\n%s", c.fname, indentN(code, "  "))
+	return b.String()
+}
+
 func genNodeOps(w *world) string {
 	var b strings.Builder
 	b.WriteString("-- GENERATED by tools/extract from /repo/node.go — do not edit.\n")
@@ -1372,6 +1445,9 @@ func genNodeOps(w *world) string {
 	for _, m := range order {
 		b.WriteString(w.genNodeMethod(m.recv, m.name) + "\n")
 	}
+	b.WriteString("-- tree.go: one step of minimum() / maximum() on an inner node\n")
+	b.WriteString(w.genWalkStep("minimum") + "\n")
+	b.WriteString(w.genWalkStep("maximum") + "\n")
 	b.WriteString("end ArtVerif.Gen.NodeOps\n")
 	return b.String()
 }
